@@ -55,6 +55,15 @@ func (s *Service) ProxyRequestToEndpointsWithRetry(ctx context.Context, w http.R
 func (s *Service) proxyToSingleEndpoint(ctx context.Context, w http.ResponseWriter, r *http.Request, endpoint *domain.Endpoint, stats *ports.RequestStats, rlog logger.StyledLogger) error {
 	stats.EndpointName = endpoint.Name
 
+	// An attempt that panics is still an attempt on this endpoint: book it as a failed one
+	// before the panic travels on (no outcome has been recorded yet when that happens)
+	defer func() {
+		if rec := recover(); rec != nil {
+			s.RecordFailure(ctx, endpoint, time.Since(stats.StartTime), fmt.Errorf("panic during proxy attempt: %v", rec))
+			panic(rec)
+		}
+	}()
+
 	targetURL := common.BuildTargetURL(r, endpoint, s.configuration.GetProxyPrefix())
 
 	stats.TargetUrl = targetURL.String()
